@@ -7,6 +7,7 @@ import (
 	"sort"
 	"strings"
 	"testing"
+	"time"
 
 	"pgregory.net/rapid"
 
@@ -33,6 +34,18 @@ type Script struct {
 	// fan-out when it shared it) and still carries an empty trail (i.e. went to non-mutating consumers
 	// only, nobody owns it exclusively), emitted again as is; a fresh one if there is none.
 	Emit []string `json:"emit,omitempty"`
+	// Ctx[i]: request context of that emission: "" / "background", "expired" (deadline already passed),
+	// "cancelled".
+	Ctx []string `json:"ctx,omitempty"`
+	// FailExport: exporter node key → "plain" | "ctx": that exporter records the arrival and then returns an
+	// error (ctx: the request context's error when it has one).  Everybody else on the routes must be served
+	// all the same.
+	FailExport map[string]string `json:"fail_export,omitempty"`
+	// ValidateFirst: the graph is built twice from the SAME configuration object: service.Validate (with
+	// factories of its own), then service.New.  ShareSlices: pipelines with equal receiver / processor /
+	// exporter lists get the very same []component.ID slice.
+	ValidateFirst bool `json:"validate_first,omitempty"`
+	ShareSlices   bool `json:"share_slices,omitempty"`
 }
 
 var cRoute = vt.New("C09", "graph-routing")
@@ -42,7 +55,17 @@ func genRoute(t *rapid.T) Script {
 	plan := topo.Evaluate(s.Topo)
 	for range plan.Recv {
 		s.Emit = append(s.Emit, rapid.SampledFrom([]string{"fresh", "readonly", "reuse", "fresh", "readonly"}).Draw(t, "emit"))
+		s.Ctx = append(s.Ctx, rapid.SampledFrom([]string{"background", "expired", "cancelled", "background"}).Draw(t, "ctx"))
 	}
+	if len(plan.Exp) > 0 && rapid.IntRange(0, 2).Draw(t, "failing-exporters") > 0 {
+		n := rapid.IntRange(1, 2).Draw(t, "fail-export-n")
+		s.FailExport = map[string]string{}
+		for i := 0; i < n; i++ {
+			s.FailExport[rapid.SampledFrom(plan.Exp).Draw(t, "fail-export")] = rapid.SampledFrom([]string{"ctx", "plain"}).Draw(t, "fail-export-kind")
+		}
+	}
+	s.ValidateFirst = rapid.IntRange(0, 2).Draw(t, "validate-first") == 0
+	s.ShareSlices = rapid.Bool().Draw(t, "share-slices")
 	return s
 }
 
@@ -69,8 +92,12 @@ func runRoute(s Script) (bool, string, *vt.Finding) {
 	tp := s.Topo
 	plan := topo.Evaluate(tp)
 	w := topo.NewWorld(tp)
+	w.ShareSlices = s.ShareSlices
+	for k, v := range s.FailExport {
+		w.FailExport[k] = v
+	}
 	ctx := context.Background()
-	key := tp.Canon()
+	key := fmt.Sprintf("%s\nemit %v ctx %v fail %v twice=%v share=%v", tp.Canon(), s.Emit, s.Ctx, s.FailExport, s.ValidateFirst, s.ShareSlices)
 
 	cRoute.Class("class:"+plan.Class, fmt.Sprintf("pipelines:%d", len(tp.Pipelines)))
 
@@ -82,6 +109,68 @@ func runRoute(s Script) (bool, string, *vt.Finding) {
 		cRoute.Class("validate-rejects:" + plan.Class)
 		if plan.Class == "valid" {
 			return true, key, vt.Failf("valid-rejected/validate", "xconfmap.Validate rejected a valid configuration: %v", verr)
+		}
+	}
+	// shapes an in-place rewrite of the configured id lists would break
+	{
+		isConn := map[string]bool{}
+		for _, c := range tp.Connectors {
+			isConn[c.ID] = true
+		}
+		connFirst := func(l []string) bool { // a connector listed before a regular component
+			seen := false
+			for _, id := range l {
+				if isConn[id] {
+					seen = true
+				} else if seen {
+					return true
+				}
+			}
+			return false
+		}
+		cnt := map[string]int{}
+		any := false
+		for _, pl := range tp.Pipelines {
+			for _, l := range [][]string{pl.Receivers, pl.Exporters} {
+				if connFirst(l) {
+					any = true
+					cnt[strings.Join(l, ",")]++
+				}
+			}
+		}
+		if any {
+			cRoute.Class("connector-listed-before-regular-component")
+			if s.ValidateFirst {
+				cRoute.Class("connector-listed-before-regular-component/built-twice")
+			}
+		}
+		if s.ShareSlices {
+			for _, n := range cnt {
+				if n > 1 {
+					cRoute.Class("connector-listed-before-regular-component/slice-shared-by-pipelines")
+					break
+				}
+			}
+		}
+	}
+	if s.ValidateFirst {
+		// a first build of the graph from the same configuration object, with factories of its own
+		w0 := topo.NewWorld(tp)
+		verr, vf := phase("validate", func() error { return service.Validate(ctx, w0.Settings(), cfg) })
+		if vf != nil {
+			return true, key, vf
+		}
+		cRoute.Class("built-twice:" + plan.Class)
+		if plan.Class == "valid" && verr != nil {
+			return true, key, vt.Failf("valid-rejected", "service.Validate rejected a valid configuration: %v", verr)
+		}
+		if plan.Class != "valid" && verr == nil {
+			return true, key, vt.Failf("invalid-accepted/"+strings.SplitN(plan.Class, "+", 2)[0], "service.Validate accepted a configuration of class %s (%s)", plan.Class, plan.Reason)
+		}
+		for _, e := range w0.Events() {
+			if e.Op == "start" || e.Op == "nstart" {
+				return true, key, vt.Failf("started-on-invalid", "service.Validate made %v happen", e)
+			}
 		}
 	}
 	var srv *service.Service
@@ -194,10 +283,39 @@ func runRoute(s Script) (bool, string, *vt.Finding) {
 			v = topo.NewPayload(sig, tag)
 		}
 		tagOf[rk] = tag
-		if err, f := phase("consume", func() error { return w.InjectPayload(rk, v) }); f != nil {
+		ectx, cancel := context.Background(), context.CancelFunc(func() {})
+		if i < len(s.Ctx) {
+			switch s.Ctx[i] {
+			case "expired":
+				ectx, cancel = context.WithDeadline(ectx, time.Now().Add(-time.Hour))
+				how += ", request context past its deadline"
+				cRoute.Class("ctx:expired")
+			case "cancelled":
+				ectx, cancel = context.WithCancel(ectx)
+				cancel()
+				how += ", request context cancelled"
+				cRoute.Class("ctx:cancelled")
+			}
+		}
+		// an error may come back only when an exporter that was told to fail is on one of the routes
+		mayFail := false
+		for _, d := range plan.Deliveries[rk] {
+			if _, ok := s.FailExport[d.Exporter]; ok {
+				mayFail = true
+			}
+		}
+		if mayFail {
+			cRoute.Class("emission-reaches-failing-exporter")
+			if ectx.Err() != nil {
+				cRoute.Class("emission-reaches-failing-exporter/ctx-done")
+			}
+		}
+		err, f := phase("consume", func() error { return w.InjectPayloadCtx(ectx, rk, v) })
+		cancel()
+		if f != nil {
 			f.Msg = fmt.Sprintf("%s payload emitted by %s did not get through: %s", how, rk, f.Msg)
 			return fail(f)
-		} else if err != nil {
+		} else if err != nil && !mayFail {
 			return fail(vt.Failf("inject-error", "%s payload emitted by %s: %v", how, rk, err))
 		}
 		by := "emitter"
